@@ -20,7 +20,8 @@ NA = {
 
 TEXT = {
     "C09": ("seeded search over interleavings of front/back consumption of the digit iterators, each step checked against a VecDeque reference model; "
-            "plus export -> perturbing transport -> import round trips over history-laden values against a byte/word reference model. "
+            "plus export -> perturbing transport -> import round trips over history-laden values against a byte/word reference model, with the "
+            "caller's slice placed at every address residue and receivers carrying large stale capacity. "
             "Sampled, not exhaustive: a clean batch is evidence, not proof.",
             "VecDeque/RefNat reference models, iter_u64_digits() as observation channel, x86_64 only",
             "deterministic simulation: seeded interleaving search of a two-ended iterator vs VecDeque model; perturbing byte/word transport",
@@ -28,14 +29,15 @@ TEXT = {
     "C04": ("seeded search over histories of public operations on a register file of live objects (the hidden state: capacity, stale digits, "
             "buffer reuse, allocator contents); after every step all objects must be canonical and objects with equal denotation must be "
             "indistinguishable (Eq, Ord, Hash, digit/byte/text exports), different ones ordered numerically; injected documented failures "
-            "under catch_unwind. Sampled, not exhaustive.",
+            "under catch_unwind; objects arriving from simulated serde peers, incl. what a failed in-place decode leaves behind. Sampled, not exhaustive.",
             "denote() via iter_u64_digits()+sign(); RefNat order; receiver of a panicked op is re-initialised; x86_64 only",
             "deterministic simulation: seeded operation histories on a register file, canonical-form and indistinguishability invariants after every step",
             "DESIGN.md section 3, C04"),
     "C11": ("the Newton starting point is treated as an environmental input: a hook lets the simulator replace it by what another platform or "
             "configuration would supply (the no_std power-of-two guess, a libm that is off by ulps, off-by-one/two) and the fix-point retry "
             "loop must converge to the same exact floor root, verified with an independent schoolbook power comparison; the same seeds are "
-            "replayed against the std and no_std library builds in both profiles and the result transcripts must be byte-identical. Sampled.",
+            "replayed against the std and no_std library builds in both profiles and the result transcripts must be byte-identical; index-enumerated "
+            "regimes cover every degree up to 30000 at the roots 1-3 and degrees with thousands of linear Newton rounds. Sampled.",
             "RefNat floor-root oracle; perturbations restricted to realistic ones; hook default = identity",
             "deterministic simulation: fault injection on the Newton initial guess (environment seam) + identical transcripts across std/no_std builds",
             "DESIGN.md section 3, C11"),
@@ -48,7 +50,9 @@ TEXT = {
             "DESIGN.md section 3, C14"),
     "C15": ("the global allocator is simulated: every block alone on its pages, flush against a PROT_NONE page (end or start chosen per allocation "
             "from the run PRNG), garbage-filled, realloc always moves, freed memory inaccessible, borrowed operands optionally read-only; the same "
-            "plan runs under the plain and the simulated allocator and the transcripts must agree; produced text is checked byte-wise. Inline "
+            "plan runs under the plain and the simulated allocator and the transcripts must agree; produced text is checked byte-wise; in half of the "
+            "fault-injecting plans the receiver of an unwound (documented-failure) operation stays in use and every later step over it is held to "
+            "memory safety only. Inline "
             "assembly is invisible to Miri/ASan, a page fault is not. Sampled, not exhaustive.",
             "page-granular observation; Linux mmap/mprotect; asm operand declarations trusted",
             "deterministic simulation: simulated guard-page allocator (placement/garbage/move faults) + allocator-independence of transcripts",
@@ -62,13 +66,15 @@ TEXT = {
             "DESIGN.md section 3, C16"),
     "C17": ("both serde endpoints and the token transport between them are simulated; seeded search over values, construction routes, "
             "transport faults (padding, truncation, duplication, wide elements, EOF, lying size_hint, failing serializer/deserializer) with a "
-            "token-level reference model and an allocation cap measured by the simulated allocator. Sampled, not exhaustive.",
+            "token-level reference model and an allocation cap measured by the simulated allocator; the same model judges every object written by "
+            "every step of register-machine value histories. Sampled, not exhaustive.",
             "serde_model token grammar; TokSerializer/TokDeserializer; SimAlloc request tracking; x86_64 only",
             "deterministic simulation: simulated serde peers + faulty token transport vs reference token model",
             "DESIGN.md section 3, C17"),
     "C18": ("the RNG is replaced by a scripted, logged byte stream; seeded search over streams (stuck-at, adversarial candidates, healing) and call "
             "histories; results compared with the documented stream function, bounds, canonical form; tiny bounds enumerate every first candidate; "
-            "liveness by construction (every stream heals to zeros, a hang is reported by the watchdog). Sampled, not exhaustive.",
+            "liveness by construction (every stream heals to zeros, a hang is reported by the watchdog), stuck-at faults of up to 2.5e7 rejected "
+            "candidates in one call. Sampled, not exhaustive.",
             "rng_model of the documented stream function; SimRng byte-stream semantics; rand 0.8.8",
             "deterministic simulation: scripted RNG stream with adversarial/healing segments vs reference stream-function model",
             "DESIGN.md section 3, C18"),
